@@ -61,13 +61,24 @@ def rule_a(ck, u, eng, paths):
     off, used, size, data = (('f', b, x) for x in ('offset', 'used', 'size', 'data'))
     inv = [lin.le(L(off), L(used)), lin.le(L(used), L(size))]
     nloads = 0
+    from .common import unify_progress
     for p in paths:
-        facts = eng.path_facts(p) + inv
+        # a walking pointer / a remaining count are the octet index in another spelling
+        sub, K_ = unify_progress(paths, p, eng, want_k=True)
+        facts = (eng.path_facts([sym.substitute(c, sub) for c in p.cond_terms()]) if sub else eng.path_facts(p)) + inv
+        if K_ is not None:
+            facts.append(Lin.const(0) - L(K_))                  # iterations completed so far: not negative (induction)
+        for h_, v_ in sub.items():
+            if '*' not in (eng.types.get(h_) or '') and (eng.types.get(h_) or '').replace('const ', '').strip() in ('size_t', 'unsigned long', 'unsigned int', 'uint32_t', 'uint64_t'):
+                facts.append(Lin.const(0) - L(v_))          # what the replaced unsigned variable was: not negative
         for e in p.effects:
             if e.kind != 'load':
                 continue
-            key = e.name
-            base = L(key[1])
+            key = sym.substitute(e.name, sub) if sub else e.name
+            try:
+                base = L(key[1])
+            except Exception:      # noqa: BLE001 - not a linear address
+                continue
             if base.t.get(data) != 1:
                 continue
             nloads += 1
@@ -140,6 +151,88 @@ def loop_features(paths, valuekey_pred):
     return feats
 
 
+def decoder_by_role(ck, u, eng, fn, ps):
+    """The decoder loop in a form that does not index its octets from 0 (counting down, accumulating the shift, walking
+    a pointer): the number K of octets taken so far is read off the loop's progress variables - one that starts at 0 and
+    steps by 1 (K), starts at maxoctets and steps by -1 (maxoctets - K), starts at 0 and steps by 7 (7K); they agree by
+    induction.  Then: an octet is merged as (octet & 0x7f) << 7K under K < maxoctets, success returns K + 1, the loop is
+    exhausted only at K == maxoctets and that returns -EILSEQ, other in-loop refusals are negative and not -EILSEQ."""
+    from .common import loop_steps, _strip_cast as strip
+    where = cast.where(u.fn(fn))
+    MAXO = ('v', 'maxoctets')
+    NU = ('f', ('v', 'n'), 'u')
+    bad = None
+    nupd = nsucc = nexh = 0
+
+    def count_of(p):
+        node, lmap = p.loops[-1]
+        st = loop_steps(ps, node)
+        forms = []
+        for k, step in st.items():
+            h, pre = lmap[k]
+            if pre is None or h[0] != 'h':
+                continue
+            pr = strip(pre)
+            if step == 1 and pr == C(0):
+                forms.append((L(h), 1))
+            elif step == -1 and pr == MAXO:
+                forms.append((L(MAXO) - L(h), 1))
+            elif step == 7 and pr == C(0):
+                forms.append((L(h), 7))
+        ones = [e for e, d in forms if d == 1]
+        if not ones:
+            return None, []
+        K = ones[0]
+        inv = [Lin.const(0) - K, K - L(MAXO)]
+        for e, d in forms:
+            inv += [e - K.scale(d), K.scale(d) - e]
+        return K, inv
+    for p in ps:
+        if not p.loops:
+            continue
+        K, inv = count_of(p)
+        if K is None:
+            return ck.broken('C14.b', fn + ':decoder', where, 'no loop variable counts the octets taken (from 0 up by one, or from maxoctets down by one)')
+        facts = eng.path_facts(p) + inv
+        upd = [e for e in p.stores() if e.name == NU and e.inloop]
+        for e in upd[-1:]:
+            nupd += 1
+            sh = [x for x in sym.subterms(e.args[0]) if x[0] == '<<' and len(x) == 3]
+            if len(sh) != 1 or ('&b', 0x7f) not in consts_under(sh[0][1], ('&b',)) or strip(e.args[0])[0] != '|b':
+                bad = bad or 'value update is %s, expected value | (octet & 0x7f) << 7K' % fmt(e.args[0])
+                continue
+            S = L(strip(sh[0][2]))
+            if not (eng.entails(facts, S - K.scale(7)) and eng.entails(facts, K.scale(7) - S)):
+                bad = bad or 'octet number K is shifted by %s, expected 7K' % fmt(sh[0][2])
+            if not eng.entails(facts, K + 1 - L(MAXO)):
+                bad = bad or 'an octet is merged although maxoctets may already have been taken'
+        if p.end == 'return' and p.ret is not None:
+            r = strip(p.ret)
+            if r[0] == 'c' and r[1] < 0:
+                if upd:
+                    bad = bad or 'a refusal after the octet was merged'
+                exhausted = eng.entails(facts, L(MAXO) - K)
+                if exhausted:
+                    nexh += 1
+                    if r[1] != -84:
+                        bad = bad or 'an exhausted bound returns %d, expected -EILSEQ' % r[1]
+                elif r[1] == -84:
+                    bad = bad or 'an in-loop refusal returns -EILSEQ, which is reserved for a missing terminator'
+            elif r[0] == 'call':
+                pass                        # the source's own error, unchanged
+            else:
+                nsucc += 1
+                d = L(r) - K - 1
+                if not (eng.entails(facts, d) and eng.entails(facts, -d)):
+                    bad = bad or 'success returns %s, expected the number of octets taken (K + 1)' % fmt(p.ret)
+                if not any(('&b', 0x80) in consts_under(c, ('&b',)) for c in p.cond_terms()):
+                    bad = bad or 'success is not decided by the continuation bit (octet & 0x80)'
+    if bad is None and not (nupd and nsucc and nexh):
+        bad = 'decoder paths not found (updates %d, successes %d, exhausted exits %d)' % (nupd, nsucc, nexh)
+    ck.verdict(bad is None, 'C14.b', fn + ':decoder', where,
+               'octet K is merged as (octet & 0x7f) << 7K under K < maxoctets; success = continuation bit clear, returning K + 1; exhausted at K == maxoctets with -EILSEQ' if bad is None else bad)
+
+
 def rule_b(ck, u, eng, P):
     def index_form(paths):
         # the decoder rule reads loops that number their octets by an index counting up from 0
@@ -149,8 +242,8 @@ def rule_b(ck, u, eng, P):
                 return any(pre is not None and sym.is_c(pre, 0) for k, h, pre in loop_counter(paths, q))
         return False
     if 'varint_decode' in P and 'varint_from_source' in P and not (index_form(P['varint_decode']) and index_form(P['varint_from_source'])):
-        ck.broken('C14.b', 'decoders', cast.where(u.fn('varint_decode')),
-                  'a decoder loop does not number its octets by an index counting up from 0; the rule reads that form only')
+        for fn in ('varint_decode', 'varint_from_source'):
+            decoder_by_role(ck, u, eng, fn, P[fn])
     elif 'varint_decode' in P and 'varint_from_source' in P:
         fa = loop_features(P['varint_decode'], lambda k: k[0] == 'f' and k[1] == ('v', 'n'))
         fb = loop_features(P['varint_from_source'], lambda k: k[0] == 'f' and k[1] == ('v', 'n'))
